@@ -208,12 +208,12 @@ def _guarded(b, cfg, bb, op, kind):
             if w[0] != 'k' or w[1].i is None or u[0] not in ('c', 'm') or operand_root(b, u) != root:
                 continue
             bad = {'zero': 0, 'min': -2147483648}.get(kind)
-            if bad is not None and w[1].i == bad:
+            if kind != 'positive' and bad is not None and w[1].i == bad:
                 if cmpop == 'Ne':
                     edges += [(bj, tt[3])] + [(bj, tg) for v, tg in tt[2] if v != 0]
                 elif cmpop == 'Eq':
                     edges += [(bj, tg) for v, tg in tt[2] if v == 0]
-            if kind == 'zero' and u is x:
+            if kind in ('zero', 'positive') and u is x:
                 # x > c (c >= 0), x >= c (c >= 1) on the true edge; x <= c (c >= 0), x < c (c >= 1) on the false edge
                 if (cmpop == 'Gt' and w[1].i >= 0) or (cmpop == 'Ge' and w[1].i >= 1):
                     edges += [(bj, tt[3])] + [(bj, tg) for v, tg in tt[2] if v != 0]
@@ -277,6 +277,9 @@ def run(prog, tier, repo):
                 guarded = _guarded(b, cfg, bi, ops[0], 'zero')
             elif kind in ('overflow Neg', 'overflow neg'):
                 guarded = _guarded(b, cfg, bi, ops[0], 'min')
+            elif kind == 'overflow Sub' and len(ops) == 2 and ops[1][0] == 'k' and ops[1][1].i is not None and ops[1][1].i >= 0:
+                # x - c with c >= 0 cannot underflow once x is known to be positive
+                guarded = _guarded(b, cfg, bi, ops[0], 'positive')
             if guarded:
                 res.ok(key, b.loc(line), 'panicking operator on a program constant, but the offending value is excluded by a dominating test')
             else:
